@@ -51,6 +51,8 @@ pub fn corrupt_candidates(content: &str) -> Vec<(&'static str, String)> {
         ("too-long", format!("{}{}", first_line, "X".repeat(70))),
         ("non-ascii", format!("\u{e9}{}", content)),
         ("bad-lead", format!("?{}", content)),
+        ("non-x", format!("~{}", content)),
+        ("non-x-inside", { let mut c: Vec<char> = content.chars().collect(); let k = c.len() / 2; c.insert(k, '^'); c.into_iter().collect() }),
     ]
 }
 
